@@ -397,8 +397,8 @@ func (w *featWalker) resolve(kind string, chain []featOv, d protoreflect.Descrip
 		if e == pe {
 			own := chain[len(chain)-1]
 			if own[1] != nil && (*own[1] == 1) != pe.IsOpenEnum {
-				w.c.Known("FM3", "C38", "filedesc.Builder ignores features set on an enum: IsClosed() differs from the protodesc descriptor")
-				w.c.Stat("known:FM3:closedness")
+				// FM3 (= FK1) was repaired in /repo by 42c075f; a recurrence is a violation
+				w.c.PropFail("C38", "filedesc.Builder ignores features set on an enum: IsClosed() differs from the protodesc descriptor", string(d.FullName()))
 			} else {
 				w.c.Stat("known:FM3:invisible")
 			}
@@ -867,7 +867,7 @@ func famFeat(c *Ctx) {
 		b := fuzzpb.TestAllTypesProto2Editions_FOO.Descriptor().IsClosed()
 		switch {
 		case a && !b:
-			c.Known("FM3", "C38", "TestAllTypesProto2Editions.NestedEnum (option features.enum_type = CLOSED) reports IsClosed() = false")
+			c.PropFail("C38", "TestAllTypesProto2Editions.NestedEnum (option features.enum_type = CLOSED) reports IsClosed() = false (regression of the repaired FM3/FK1)")
 		case a != b:
 			c.PropFail("C38", "NestedEnum closedness differs between the proto2 pair members", fmt.Sprint(a, b))
 		}
